@@ -308,7 +308,9 @@ type jsonObj = map[string]any
 // buildBody builds the JSON body of one request for route kind k; c decides the deviations.
 func buildBody(c *Chooser, k string) (body string, supi string) {
 	supi = pick(c, "supi", supiA, "imsi-", "imsi", "nai-user@example.org", "", "imsi-a/b", "imsi-../x", "208930000000001", "gci-1", "gli-1",
-		"imsi-"+strings.Repeat("7", 300), "imsi-12\x0034", "nai", "gci", "gli", "imsi-20893 0000001", "imsi-%2e%2e", "IMSI-208930000000001")
+		"imsi-"+strings.Repeat("7", 300), "imsi-12\x0034", "nai", "gci", "gli", "imsi-20893 0000001", "imsi-%2e%2e", "IMSI-208930000000001",
+		// file-name limits are counted in octets: 251 + ".cdr" fits, 252 does not; 130 two-octet characters are 265 octets
+		"imsi-"+strings.Repeat("7", 246), "imsi-"+strings.Repeat("7", 247), "imsi-"+strings.Repeat("\u00e9", 130), "imsi-"+strings.Repeat("\u00e9", 123))
 	o := jsonObj{}
 	if c.Pick(2, "supi-absent") == 0 {
 		o["subscriberIdentifier"] = supi
@@ -690,7 +692,8 @@ func init() {
 					}
 				}
 				for _, s := range []string{"imsi-", "imsi", "nai-user@example.org", "imsi-a/b", "imsi-../x", "208930000000001", "gci-1", "gli-1", "imsi-208930000000001 ", "imsi-%2e%2e", supiA,
-					"imsi-" + strings.Repeat("7", 300), "imsi-12\x0034", "nai", "gci", "gli", "IMSI-208930000000001", "imsi-.", "imsi-.."} {
+					"imsi-" + strings.Repeat("7", 300), "imsi-12\x0034", "nai", "gci", "gli", "IMSI-208930000000001", "imsi-.", "imsi-..",
+					"imsi-" + strings.Repeat("7", 246), "imsi-" + strings.Repeat("7", 247), "imsi-" + strings.Repeat("\u00e9", 130), "imsi-" + strings.Repeat("\u00e9", 123)} {
 					c := mkCreate(0, "smf1")
 					c.Supi, c.Method = s, "supi="+s
 					ops = append(ops, c)
